@@ -248,6 +248,9 @@ pub fn prepare(property: &str, tier: &str, want_de: bool, agg: &mut Agg) -> Prep
                     v = v.ctx(k, val);
                 }
             }
+            if st.label.contains("annotation inside the sequence") {
+                v = v.ctx("documentation.position", "first-child-of-sequence-or-extension");
+            }
             agg.add(v);
             masked += 1;
             continue;
